@@ -357,7 +357,7 @@ inline Region gen_region(Choices& c, CaseLog& log, UnitBuilder& b, double w)
             double ax[3];
             c.unit_vector(ax);
             auto R = make_rotation(make_unit_vector(Real3{ax[0], ax[1], ax[2]}),
-                                   Turn{c.real_in(0, 1)});
+                                   Turn{c.real_in(0, 0.5)});
             // A = R diag(1/r^2) R^T
             double A[3][3];
             for (int i = 0; i < 3; ++i)
@@ -438,7 +438,7 @@ inline VariantTransform gen_transform(Choices& c, CaseLog& log, Real3 const& t)
         return Translation{t};
     double ax[3];
     c.unit_vector(ax);
-    double turn = c.real_in(0, 1);
+    double turn = c.real_in(0, 0.5);
     log.mix(turn);
     auto R = make_rotation(make_unit_vector(Real3{ax[0], ax[1], ax[2]}),
                            Turn{turn});
